@@ -143,7 +143,7 @@ def run(tier, seed, rng):
                 if why:
                     failures.append(dict(kind='oracle', sig='race-define', what=f"process {which} of two concurrent definitions ({job[0]}, {job[1]}): {why}",
                                          job=[job[0], job[1], job[2], job[3], job[4]], interleaving=order))
-                if rec['ops'] and not cachelib.conforms(rec['ops']):
+                if rec['ops'] and not cachelib.conforms(rec['ops'], rec.get('noload', False)):
                     failures.append(dict(kind='oracle', sig='race-trace', what=f"file operations {rec['ops']} are not a run of the protocol", interleaving=order))
     dist['distinct_interleavings'] = len(seen)
     return dict(evaluations=dist['crash_points'] + dist['torn_files'] + dist['schedules'],
